@@ -49,7 +49,7 @@ type c16Case struct {
 func (c16) Cases(tier string, seed uint64) []core.Case {
 	n := 32
 	if tier == "thorough" {
-		n = 600
+		n = 6000
 	}
 	r := core.NewRng(core.Mix(seed, 0xC16))
 	kinds := []string{"race", "race", "fingerprint", "release", "race", "stale"}
